@@ -14,7 +14,10 @@ TLC's oracle predicts for the same request is sent through the same spec as a se
 
 An operation outside a device's native set may be decomposed or refused: a raised refusal (DeviceError, NotImplementedError,
 ...) is counted, never flagged; a returned number that differs from the exact value is a violation, and so is a crash
-(any other exception class) on a circuit the device accepted."""
+(any other exception class) on a circuit the device accepted.  Violation keys are `<device>:<measurement kind>:<tag>`; the
+tag names the recognised cause when the driver can recognise one (see `diagnose`), else `mismatch` / `shape` / `crash:<class>`."""
+import copy
+import json
 import random
 import threading
 import time
@@ -36,14 +39,15 @@ NB = 3                     # broadcast size
 #                    to return the density matrix on a mixed-state device
 # default.tensor     docstring: "the supported measurement types are expectation values, variances, and state measurements"
 # reference.qubit    validate_measurements(): every StateMeasurement
-# default.clifford   _analytical_measurement_map; qp.state() is a state vector only with tableau=False and stim does not track
-#                    the global phase of the circuit (compared up to a phase)
-# null.qubit         everything default.qubit accepts (it borrows its preprocessing)
+# default.clifford   _analytical_measurement_map.  qp.state() is a state vector only with tableau=False ("/sv" below); stim does
+#                    not track the global phase of the circuit and hands out single-precision vectors, so state vectors are compared
+#                    up to a phase and state vectors / density matrices at 1e-6
+# null.qubit         everything default.qubit accepts (it borrows its preprocessing); shapes only
 ALL = {"expval", "var", "ham", "probs", "state", "dm", "purity", "vn", "mi"}
 MEAS = {"default.mixed": ALL, "default.tensor/mps": {"expval", "var", "ham", "state"}, "default.tensor/tn": {"expval", "var", "ham", "state"},
-        "reference.qubit": ALL, "default.clifford": ALL, "null.qubit": ALL}
+        "reference.qubit": ALL, "default.clifford": ALL - {"state"}, "default.clifford/sv": {"state"}, "null.qubit": ALL}
 GENERAL = ["default.mixed", "default.tensor/mps", "default.tensor/tn", "reference.qubit", "null.qubit"]
-CLIFF = ["default.clifford", "default.mixed", "reference.qubit", "default.tensor/mps"]
+CLIFF = ["default.clifford", "default.clifford/sv", "default.mixed", "reference.qubit", "default.tensor/mps"]
 # exception classes that are a refusal ("not supported"), by class name
 REFUSAL = {"DeviceError", "NotImplementedError", "DecompositionUndefinedError", "WireError", "QuantumFunctionError",
            "DecompositionError", "MatrixUndefinedError", "SparseMatrixUndefinedError", "DiagGatesUndefinedError",
@@ -75,11 +79,11 @@ def clifford_gate(rng, n):
     r = rng.random()
     if r < 0.06:
         return rec("GlobalPhase", [1], [rng.randrange(1 << M)])
-    if r < 0.10:
+    if r < 0.09:
         return rec(rng.choice(["RX", "RY", "RZ", "PhaseShift"]), [rng.randint(1, n)], [2 * rng.randrange(8)])
-    if r < 0.13:
+    if r < 0.11:
         return rec("SX", [rng.randint(1, n)])
-    if r < 0.16 and n >= 2:
+    if r < 0.13 and n >= 2:
         return rec("ECR", rng.sample(range(1, n + 1), 2))
     if r < 0.6 or n < 2:
         g = rec(rng.choice(C1), [rng.randint(1, n)])
@@ -88,9 +92,9 @@ def clifford_gate(rng, n):
     q = rng.random()
     if q < 0.15:
         g["mods"] = [{"t": "adj"}]
-    elif q < 0.25:
-        g["mods"] = [{"t": "pow", "z": rng.choice([2, 3, -1, -2])}]
-    elif q < 0.30 and g["g"] in ("PauliX", "PauliY", "PauliZ") and n >= 2:
+    elif q < 0.22:
+        g["mods"] = [{"t": "pow", "z": rng.choice([2, 2, -2, 3, -1])}]
+    elif q < 0.27 and g["g"] in ("PauliX", "PauliY", "PauliZ") and n >= 2:
         free = [w for w in range(1, n + 1) if w not in g["w"]]
         g["w"] = [rng.choice(free)] + g["w"]
         g["mods"] = [{"t": "ctrl", "cv": [rng.randint(0, 1)]}]
@@ -99,7 +103,7 @@ def clifford_gate(rng, n):
 
 def gen_cases(tier, seed):
     rng = random.Random(2700 + seed)
-    ngen, ncl = (95, 60) if tier == "quick" else (1500, 900)
+    ngen, ncl = (90, 60) if tier == "quick" else (1500, 900)
     cases = []
     for i in range(ngen + ncl):
         cl = i >= ngen
@@ -126,7 +130,7 @@ def make_device(name, labels, n, devwires):
         return qp.device("default.tensor", method="mps", max_bond_dim=max(2, 1 << ((n + 1) // 2)), **kw)
     if name == "default.tensor/tn":
         return qp.device("default.tensor", method="tn", **kw)
-    if name == "default.clifford":
+    if name == "default.clifford/sv":
         return qp.device("default.clifford", tableau=False, **kw)
     return qp.device(name, **kw)
 
@@ -145,10 +149,16 @@ def build_ops(c):
     return ops + gates
 
 
+def fallback(c):
+    return ("expval", [3] + [0] * (c["n"] - 1))
+
+
 def meas_for(dev, c):
-    """the measurements of the case this device is asked for"""
+    """the measurements of the case this device is asked for ([] = the device is not run on this case)"""
     ms = [m for m in c["meas"] if m[0] in MEAS[dev] and (c["devwires"] or m[0] != "state")]
-    return ms or [("expval", [3] + [0] * (c["n"] - 1))]
+    if dev == "default.clifford/sv":
+        return ms
+    return ms or [fallback(c)]
 
 
 def restrict(res, all_meas, meas):
@@ -172,16 +182,66 @@ def expected_for(dev, m, e):
     return e
 
 
+def up_to_phase(g, x, tol):
+    g, x = np.asarray(g, dtype=complex), np.asarray(x, dtype=complex)
+    if g.shape != x.shape:
+        return False
+    k = int(np.argmax(np.abs(x)))
+    if abs(g.reshape(-1)[k]) < 1e-6:
+        return False
+    return bool(np.allclose(g * (x.reshape(-1)[k] / g.reshape(-1)[k]), x, atol=tol, rtol=0))
+
+
 def agrees(dev, m, got, e):
-    if dev == "default.clifford" and m[0] == "state":           # stim drops the global phase of the circuit
-        g, x = np.asarray(got, dtype=complex).reshape(-1), np.asarray(e, dtype=complex).reshape(-1)
-        if g.shape != x.shape:
-            return False
-        k = int(np.argmax(np.abs(x)))
-        if abs(g[k]) < 1e-9:
-            return False
-        return bool(np.allclose(g * (x[k] / g[k]), x, atol=TOL, rtol=0))
+    if dev.startswith("default.clifford") and m[0] == "state":           # stim drops the global phase; single precision
+        return up_to_phase(np.asarray(got).reshape(-1), np.asarray(e).reshape(-1), 1e-6)
+    if dev.startswith("default.clifford") and m[0] == "dm":              # computed from stim's single-precision state vector
+        return devsim.close(got, e, 1e-6)
     return devsim.close(got, e, TOL)
+
+
+def tape_order_axes(c, tape):
+    """axis permutation `tape wires first, unused device wires after`: the register a device builds when it relabels the
+    wires in order of first use (map_to_standard_wires) instead of using its own wire order"""
+    pos = [c["labels"].index(w) for w in tape.wires]
+    return pos + [i for i in range(c["n"]) if i not in pos]
+
+
+def diagnose(dev, c, m, got, e, v, ctx):
+    """tag of a disagreement; recognisable causes get their own tag so that each can be tracked separately"""
+    g_, e_ = np.asarray(got), np.asarray(e)
+    n = c["n"]
+    if g_.shape != e_.shape:
+        return "broadcast-shape" if c["batch"] is not None else "shape"
+    psi = ctx["psi"]
+    try:
+        if m[0] == "state" and dev != "default.mixed":
+            perm = tape_order_axes(c, ctx["tape"])
+            alt = np.transpose(psi.reshape([2] * n), perm).reshape(-1)
+            if up_to_phase(g_.reshape(-1), alt, 1e-6):
+                return "tape-wire-order"
+        if dev == "default.clifford" and m[0] == "dm":
+            t = psi.reshape([2] * n)
+            keep = [w - 1 for w in m[1]]
+            t = np.transpose(t, keep + [i for i in range(n) if i not in keep]).reshape(1 << len(keep), -1)
+            if up_to_phase(g_, t @ t.T, 1e-6):
+                return "unconjugated"
+        if dev == "default.clifford" and m[0] == "mi":
+            sa, sb = (devsim.entropy(devsim.reduced_dm(psi, w, n)) for w in (m[1], m[2]))
+            if abs(float(g_) - (sa + sb)) < 1e-8:
+                return "entropy-sum"
+        if dev == "default.tensor/mps" and m[0] != "state":
+            d = make_device(dev, c["labels"], n, c["devwires"])
+            (t2,), _ = d.preprocess()[0]([ctx["tape"]])
+            order = list(d.wires) if d.wires is not None else list(t2.wires)
+            for op in t2.operations:
+                if op.name in ("PauliRot", "MultiRZ") and len(op.wires) >= 3:
+                    p = [order.index(w) for w in op.wires]
+                    if p != sorted(p):
+                        return "unsorted-paulirot-wires"
+    except Exception:  # noqa: BLE001 - a diagnosis aid only
+        pass
+    return "mismatch"
 
 
 def shape_req(c, meas, obs):
@@ -202,12 +262,17 @@ def shape_req(c, meas, obs):
             "args": [], "wrap": False, "ps": [], "what": "res", "obs": obs}
 
 
+def is_refusal(exc):
+    cls = type(exc).__name__
+    return cls in REFUSAL or (cls == "ValueError" and "Gate not found" in str(exc))       # stim has no gate of that name
+
+
 def run(tier, seed):
     cases = gen_cases(tier, seed)
     # ---------------------------------------------------------------- exact oracle (TLC), running beside the device executions
     tcases, owner = [], []
     for ci, c in enumerate(cases):
-        req, _ = devsim.tlc_meas(c["meas"] + [("expval", [3] + [0] * (c["n"] - 1))])
+        req, _ = devsim.tlc_meas(c["meas"] + [fallback(c)])
         pre = [rec("PauliX", [i + 1]) for i, b in enumerate(c["prep"] or []) if b]
         for v in ([None] if c["batch"] is None else list(range(NB))):
             circ = [dict(g) for g in c["circ"]]
@@ -220,37 +285,44 @@ def run(tier, seed):
     def oracle():
         try:
             box["res"] = tapeeval.evaluate("C27", tcases, M)
-        except BaseException as e:          # re-raised in the main thread
+        except BaseException as e:  # noqa: BLE001 - re-raised in the main thread
             box["err"] = e
     th = threading.Thread(target=oracle)
     th.start()
 
     # ---------------------------------------------------------------- run the real devices
-    not_covered, runs, raised = {}, [], {}
-    t_dev = {}
+    not_covered, runs, t_dev = {}, [], {}
     for ci, c in enumerate(cases):
         ops = build_ops(c)
         for dev in (CLIFF if c["pool"] == "clifford" else GENERAL):
             if dev in not_covered:
                 continue
-            if c["pool"] == "clifford" and dev != "default.clifford" and ci % 3:
+            if c["pool"] == "clifford" and not dev.startswith("default.clifford") and ci % 3:
                 continue                     # the other devices see a third of the Clifford pool
-            t0 = time.time()
             meas = meas_for(dev, c)
-            if dev.startswith("default.tensor") and ci % 6 == 0:
-                meas = meas + [("probs", [1])]          # documented as unsupported: must be refused, not answered
-            mps = devsim.pl_measurements(meas, c["labels"])
-            tape = qp.tape.QuantumScript(ops, mps)
+            if not meas:
+                continue
+            t0 = time.time()
             try:
                 d = make_device(dev, c["labels"], c["n"], c["devwires"])
             except ImportError as e:
                 not_covered[dev] = f"{type(e).__name__}: {str(e)[:120]}"
                 continue
-            try:
-                out = qp.execute([tape], d, diff_method=None)[0]
-                runs.append((ci, dev, meas, out, None))
-            except Exception as e:  # noqa: BLE001 - classified below
-                runs.append((ci, dev, meas, None, e))
+
+            def ex(ms):
+                tape = qp.tape.QuantumScript(ops, devsim.pl_measurements(ms, c["labels"]))
+                try:
+                    return tape, qp.execute([tape], d, diff_method=None)[0], None
+                except Exception as e:  # noqa: BLE001 - classified below
+                    return tape, None, e
+            tape, out, exc = ex(meas)
+            if exc is not None and not is_refusal(exc) and len(meas) > 1:
+                for m in meas:             # find the measurement(s) the crash belongs to; the others are still compared
+                    runs.append((ci, dev, [m]) + ex([m]) + (False,))
+            else:
+                runs.append((ci, dev, meas, tape, out, exc, False))
+            if dev.startswith("default.tensor") and ci % 5 == 0:
+                runs.append((ci, dev, [("probs", [1])]) + ex([("probs", [1])]) + (True,))    # documented as unsupported: to be refused
             t_dev[dev] = t_dev.get(dev, 0.0) + time.time() - t0
     th.join()
     if "err" in box:
@@ -261,43 +333,45 @@ def run(tier, seed):
         by_case.setdefault(ci, {})[v] = r
 
     # ---------------------------------------------------------------- compare
-    viol, samples, nontriv = [], [], set()
+    viol, samples, nontriv, raised = [], [], set(), {}
     per_dev = {d: {"executed": 0, "compared": 0, "refused": 0, "circuits_agreeing": 0} for d in MEAS}
     kinds_cmp, gates_seen, shape_recs, shape_owner = {}, {}, [], []
-    refused_expected = 0
-    for ci, dev, meas, out, exc in runs:
+    probes_refused = 0
+    for ci, dev, meas, tape, out, exc, probe in runs:
         c = cases[ci]
         n = c["n"]
-        full = c["meas"] + [("expval", [3] + [0] * (n - 1))]
-        opsdesc = ([f"BasisState({c['prep']})"] if c["prep"] is not None else []) + [str(decode_gate(g, M, c["labels"])) for g in c["circ"]]
+        full = c["meas"] + [fallback(c)]
+        opsdesc = [str(o) for o in tape.operations]
+        where = f"{dev} (device wires={c['labels'] if c['devwires'] else None})"
         st = per_dev[dev]
+        if probe:
+            if exc is not None and is_refusal(exc):
+                probes_refused += 1
+            elif exc is None:
+                viol.append(Violation(key=f"{dev}:probs:answered", detail=f"{where} answered qp.probs (documented as unsupported) with {str(out)[:200]}",
+                                      replay={"case": c, "device": dev}))
+            continue
         if exc is not None:
             cls = type(exc).__name__
-            unsupported_asked = dev.startswith("default.tensor") and ci % 6 == 0
-            backend = cls == "ValueError" and "Gate not found" in str(exc)       # stim has no gate of that name
-            if cls in REFUSAL or backend:
+            if is_refusal(exc):
                 st["refused"] += 1
                 raised[f"{dev}:{cls}"] = raised.get(f"{dev}:{cls}", 0) + 1
-                refused_expected += unsupported_asked
             else:
                 kinds = "+".join(sorted({m[0] for m in meas}))
-                viol.append(Violation(key=f"{dev}:crash:{cls}:{kinds}",
-                                      detail=f"{dev} (wires={'labels' if c['devwires'] else 'None'}) raised {cls}: {str(exc)[:160]} on {opsdesc} "
-                                             f"measuring {meas} labels={c['labels']}",
+                std = list(tape.wires) == list(range(len(tape.wires)))
+                viol.append(Violation(key=f"{dev}:{kinds}:crash:{cls}" + ("" if std else ":nonstandard-wires"),
+                                      detail=f"{where} raised {cls}: {str(exc)[:160]} on {opsdesc} measuring {meas}; tape wires {list(tape.wires)}",
                                       replay={"case": c, "device": dev, "measurements": [list(m) for m in meas]}))
             continue
         st["executed"] += 1
-        if dev.startswith("default.tensor") and ci % 6 == 0:
-            viol.append(Violation(key=f"{dev}:probs:answered", detail=f"{dev} answered qp.probs (documented as unsupported) with {out!r:.200}",
-                                  replay={"case": c, "device": dev}))
-            continue
         outs = out if isinstance(out, tuple) and len(meas) > 1 else (out,)
         if dev == "null.qubit":
             shape_recs.append(shape_req(c, meas, tree_of(out)))
             shape_owner.append((ci, "impl", meas))
         ok_all = True
         for v in ([None] if c["batch"] is None else list(range(NB))):
-            exp = devsim.expected_values(meas, restrict(by_case[ci][v], full, meas), n)
+            r = restrict(by_case[ci][v], full, meas)
+            exp = devsim.expected_values(meas, r, n)
             if dev == "null.qubit":
                 if v in (None, 0):
                     es = [np.asarray(e) for e in exp]
@@ -307,47 +381,48 @@ def run(tier, seed):
                     shape_owner.append((ci, "oracle", meas))
                 continue
             if len(outs) != len(meas):
-                viol.append(Violation(key=f"{dev}:nesting", detail=f"{dev} returned {len(outs)} results for {len(meas)} measurements on {opsdesc}",
+                viol.append(Violation(key=f"{dev}:nesting", detail=f"{where} returned {len(outs)} results for {len(meas)} measurements on {opsdesc}",
                                       replay={"case": c, "device": dev}))
                 ok_all = False
                 break
+            ctx = {"psi": np.asarray(r["meas"][0]).reshape(-1), "tape": tape}
             for mi, (m, e) in enumerate(zip(meas, exp)):
                 got = outs[mi]
                 try:
                     got = np.asarray(qp.math.toarray(got) if not isinstance(got, (float, np.ndarray)) else got)
-                    if v is not None:
+                    if v is not None and got.ndim and got.shape[0] == NB:
                         got = got[v]
-                except Exception as ex:  # noqa: BLE001
+                except Exception:  # noqa: BLE001
                     got = np.asarray(np.nan)
                 e2 = expected_for(dev, m, e)
                 st["compared"] += 1
                 kinds_cmp[f"{dev}:{m[0]}"] = kinds_cmp.get(f"{dev}:{m[0]}", 0) + 1
                 if agrees(dev, m, got, e2):
-                    nontriv.add((ci, dev, mi))
+                    nontriv.add((ci, dev, str(m)))
                 else:
                     ok_all = False
                     g_, e_ = np.asarray(got), np.asarray(e2)
-                    what = "shape" if g_.shape != e_.shape else "mismatch"
+                    tag = diagnose(dev, c, m, got, e2, v, ctx)
                     viol.append(Violation(
-                        key=f"{dev}:{m[0]}:{what}",
-                        detail=f"{dev} (wires={'labels' if c['devwires'] else 'None'}) {m} on {opsdesc} labels={c['labels']}"
-                               f"{' batch entry ' + str(v) if v is not None else ''}: got {np.round(g_, 6).tolist() if g_.size <= 16 else g_.shape} "
-                               f"exact {np.round(e_, 6).tolist() if e_.size <= 16 else e_.shape}",
+                        key=f"{dev}:{m[0]}:{tag}",
+                        detail=f"{where} {m} on {opsdesc}{' batch entry ' + str(v) if v is not None else ''}: got "
+                               f"{np.round(g_, 6).tolist() if g_.size <= 16 else 'array of shape ' + str(g_.shape)} exact "
+                               f"{np.round(e_, 6).tolist() if e_.size <= 16 else 'array of shape ' + str(e_.shape)}; tape wires {list(tape.wires)}",
                         replay={"case": c, "device": dev, "measurement": list(m)}))
+                    if tag.endswith("shape"):
+                        break
         if ok_all and dev != "null.qubit":
             st["circuits_agreeing"] += 1
             for g in c["circ"]:
                 gates_seen[g["g"]] = gates_seen.get(g["g"], 0) + 1
-            if len(samples) < 4 and len(c["circ"]) >= 4 and all(s["device"] != dev for s in samples):
-                samples.append({"device": dev, "n": n, "labels": c["labels"], "ops": opsdesc, "measurements": [str(m) for m in mpsdesc(meas, c)]})
+            if len(samples) < 5 and len(c["circ"]) >= 4 and all(s["device"] != dev for s in samples):
+                samples.append({"device": dev, "n": n, "labels": c["labels"], "ops": opsdesc, "measurements": [str(m) for m in tape.measurements]})
 
     # ---------------------------------------------------------------- null.qubit: shapes decided by Trace_ResultShape.tla
     shape_stats = {"generated": 0, "distinct": 0}
     shape_ok = 0
     neg = 0
     if shape_recs:
-        import copy
-        import json
         bad = copy.deepcopy(next(r for r in shape_recs if r["obs"]["k"] == "A" or r["obs"]["c"]))
         if bad["obs"]["k"] == "T":
             bad["obs"]["c"] = bad["obs"]["c"][:-1]                       # one measurement result dropped
@@ -377,22 +452,23 @@ def run(tier, seed):
             if who == "oracle":
                 raise lib.MachineryError(f"the two oracles disagree about a shape ({verd[i]}): request {shape_recs[i]}")
             c = cases[ci]
-            viol.append(Violation(key=f"null.qubit:{verd[i]}:{'+'.join(sorted({m[0] for m in meas}))}",
+            viol.append(Violation(key=f"null.qubit:{'+'.join(sorted({m[0] for m in meas}))}:{verd[i]}",
                                   detail=f"null.qubit returned {show(shape_recs[i]['obs'])} for measurements {meas} on {c['n']} wires "
-                                         f"(device wires={'labels' if c['devwires'] else 'None'}, broadcast={NB if c['batch'] else 0}): {verd[i]} differs from the "
-                                         f"return type specification",
+                                         f"(device wires={c['labels'] if c['devwires'] else None}, broadcast={NB if c['batch'] else 0}): verdict "
+                                         f"'{verd[i]}' against the return type specification",
                                   replay={"case": c, "device": "null.qubit", "request": shape_recs[i]}))
 
     # ---------------------------------------------------------------- negative controls of the numeric comparator
-    if devsim.close(np.array([0.5, 0.5]), np.array([0.5, 0.5 + 1e-6]), TOL) or agrees("default.clifford", ("state",), np.array([1, 0]), np.array([0, 1])) \
-            or not agrees("default.clifford", ("state",), np.array([1j, 0]), np.array([1, 0])):
+    if devsim.close(np.array([0.5, 0.5]), np.array([0.5, 0.5 + 1e-6]), TOL) or agrees("default.clifford/sv", ("state",), np.array([1, 0]), np.array([0, 1])) \
+            or not agrees("default.clifford/sv", ("state",), np.array([1j, 0]), np.array([1, 0])) \
+            or agrees("default.mixed", ("expval", [3]), 0.5, 0.5 + 1e-6):
         raise lib.MachineryError("negative control accepted by the comparator")
-    neg += 2
+    neg += 3
     # vacuity: every constructed device must have produced compared values
     for d, st in per_dev.items():
-        if d not in not_covered and st["compared"] < (10 if tier == "quick" else 100):
-            if not any(v.key.startswith(d) for v in viol):
-                raise lib.MachineryError(f"vacuous: {d} produced only {st['compared']} compared values ({st})")
+        need = {"default.clifford/sv": 3}.get(d, 10) * (1 if tier == "quick" else 10)
+        if d not in not_covered and st["compared"] < need and not any(v.key.startswith(d) for v in viol):
+            raise lib.MachineryError(f"vacuous: {d} produced only {st['compared']} compared values ({st})")
 
     cov = {"states": stats["distinct"] + shape_stats["distinct"], "transitions": stats["generated"] + shape_stats["generated"],
            "traces_validated_against_impl": sum(st["executed"] for st in per_dev.values()),
@@ -401,18 +477,15 @@ def run(tier, seed):
                    "table, Clifford pool for default.clifford; non-trivial = distinct (circuit, device, measurement) triples whose returned "
                    "value equals TLC's exact value (null.qubit: distinct (circuit, shape tree) judged ok by Trace_ResultShape.tla)",
            "samples": samples, "exhaustive": False, "per_device": per_dev, "devices_not_covered": not_covered,
-           "refusals_by_device_and_class": raised, "documented_unsupported_measurement_refused": refused_expected,
+           "refusals_by_device_and_class": raised, "documented_unsupported_measurement_refused": probes_refused,
            "compared_by_device_and_kind": kinds_cmp, "gate_kinds_in_agreeing_circuits": gates_seen,
            "null_qubit_shapes_ok": shape_ok, "oracle_shape_selfchecks": sum(1 for o in shape_owner if o[1] == "oracle"),
            "negative_controls_rejected": neg, "circuits": len(cases), "ring_level_M": M,
            "device_seconds": {k: round(v, 1) for k, v in t_dev.items()}}
     return CheckResult(coverage=cov, violations=viol, assumptions=[
         "angles on the lattice 4*pi/16; density matrices, purities and entropies are computed from TLC's exact state with numpy; float comparison at 1e-8",
-        "qp.state() on default.mixed is compared with |psi><psi| (documented); on default.clifford (tableau=False) up to a global phase",
+        "qp.state() on default.mixed is compared with |psi><psi| (documented); on default.clifford (tableau=False) up to a global phase; "
+        "default.clifford state vectors and density matrices at 1e-6 (stim hands out single-precision vectors)",
         "default.tensor is asked only for its documented measurement types (expval, var, state); qp.probs must be refused",
         "a refusal (DeviceError, NotImplementedError, decomposition errors, stim 'Gate not found') is not a disagreement; any other exception is reported as a crash",
         "mutual information is a scalar leaf in the shape model (ResultShape kind vnentropy)"])
-
-
-def mpsdesc(meas, c):
-    return devsim.pl_measurements(meas, c["labels"])
